@@ -91,6 +91,12 @@ func (r *Run) Fail(key, where, detail string) { r.add(key, false, where, detail)
 func (r *Run) Fn(name string) *ssa.Function {
 	fn := r.P.Func(name)
 	if fn == nil || len(fn.Blocks) == 0 {
+		if r.cfg != "" && r.Funcs[name] {
+			// resolved under the default configuration: the defining file is excluded by
+			// build constraints here, so there is nothing to decide in this configuration
+			r.Pass("anchor:"+name, "-", "not built under "+r.cfg+" (build constraints); decided under the default configuration")
+			return nil
+		}
 		r.Fail("anchor:"+name, "-", "undecided: anchor function "+name+" not found in the program")
 		return nil
 	}
